@@ -682,3 +682,41 @@ package eio
 //@     update handled = handled + 1
 //@   loop 0 invariant handled == rangeindex + 1 && rangelen == len(packets)
 //@   ensures handled == len(packets) && told == 1 [C06.eio.cli.batch.every.packet.handled]
+
+// Thin contracts on delegating functions (C17 / C06 / C02): a closed server closes every session it holds, Close()
+// of a session reports the deliberate reason, and the client's Send writes under the transport lock (the upgrade
+// swaps the transport under the write lock: a send never lands on a transport that is being replaced).
+//@ func (*socketStore).closeAll
+//@   opt safety off
+//@   requires s != nil
+//@   ghost got int = 0
+//@   ghost closed int = 0
+//@   callsite (*socketStore).getAll skip
+//@     requires recv == s
+//@     updateafter got = len(result)
+//@   callsite (*serverSocket).Close skip
+//@     update closed = closed + 1
+//@   loop 0 invariant closed == rangeindex + 1 && rangelen == got
+//@   ensures closed == got [C17.closeall.every.session]
+//@ func (*serverSocket).Close
+//@   opt safety off
+//@   ghost n int = 0
+//@   callsite (*serverSocket).close skip
+//@     requires recv == s && arg0 == ReasonForcedClose && arg1 == nil [C06.eio.srv.close.names.the.cause]
+//@     update n = n + 1
+//@   ensures n == 1 [C06.eio.srv.close.closes]
+//@ func (*clientSocket).Close
+//@   opt safety off
+//@   ghost n int = 0
+//@   callsite (*clientSocket).close skip
+//@     requires recv == s && arg0 == ReasonForcedClose && arg1 == nil [C06.eio.cli.close.names.the.cause]
+//@     update n = n + 1
+//@   ensures n == 1 [C06.eio.cli.close.closes]
+//@ func (*clientSocket).Send
+//@   opt safety off
+//@   requires s != nil && !held(s.transportMu)
+//@   ghost n int = 0
+//@   callsite (*clientSocket).writeWritablePackets skip
+//@     requires recv == s && arg0 == packets && held(s.transportMu) && n == 0 [C02.eio.cli.send.under.the.transport.lock]
+//@     update n = n + 1
+//@   ensures n == 1 && !held(s.transportMu) [C02.eio.cli.send.once.lock.released]
